@@ -65,6 +65,19 @@ def produce_payloads(o):
     return pls
 
 
+def partitioner_monitor(run):
+    """The producer keeps ONE partitioner object per topic (producer.py:333-336): the partition chosen for a send is an
+    oracle in the model, so what keeps round-robin / any stateful partitioner meaningful is that the object lives on.
+    A second partitioner_class(topic, ...) call for a topic whose partition list is unchanged is a violation."""
+    bad, seen = [], {}
+    for (step, topic, parts) in getattr(run, "partitioner_builds", []):
+        if topic in seen and seen[topic][1] == parts:
+            bad.append((step, "partitioner: a new partitioner was built for topic %r at step %d although one was built at step %d for the "
+                              "same partition list %r (its state - e.g. the round-robin position - is lost)" % (topic, step, seen[topic][0], parts)))
+        seen[topic] = (step, parts)
+    return bad
+
+
 # ------------------------------------------------------------------ generation / correspondence
 def gen_runs(rnd, n, hist=None, cfg_fn=None):
     runs = []
